@@ -65,3 +65,21 @@ COMMON_ASSUME = [
     "slot, unknown extension in require, require not at the top, multi-line string inside a "
     "list) pass whatever the parser says",
 ]
+
+
+def t4_conds(mode, timeout=300, quick=False):
+    """valid corpus scripts (every command, tag, nesting form) x at most one edit x layout"""
+    from harness import c01gen as G
+    out = []
+    nk = 4 + len(G.EDIT_TOKENS)
+    for sc in range(G.NCORPUS):
+        for lo, hi in parts(nk, 4):
+            out.append(Cond("t4-script%d-edit%02d_%02d" % (sc, lo, hi), "harness/c01gen.py", "t4",
+                            env={"T1_MODE": mode, "T4_SCRIPT": sc, "T4_KLO": lo, "T4_KHI": hi,
+                                 "T4_FREEZE": "eol,comment" if quick else ""}, timeout=timeout))
+    return out
+
+
+T4_BOUND = ("5 valid corpus scripts using every supported command, tag, match type, list / multi-line form, nesting, "
+            "elsif/else, anyof/allof/not; unedited and with every single edit (delete / duplicate / swap-with-next / "
+            "replace by one of 12 tokens at every position) x LF/CRLF x comment placement (quick tier: LF, no comment)")
